@@ -91,7 +91,10 @@ def spec(tier, seed):
                              mem_gb=6, timeout_s=1200, sub="C11c placement terminates for any stated line (0 ..= isize::MAX/2)",
                              must_cover=["stated line far behind the end of the file"], unwind_is_violation=True,
                              params=dict(file_lines=n, shape=list(sh), stated_line="any 0..=2^62")))
+    from . import _mir
     return {
+        "mir_vcs": [{"name": "build_filepatch: a file patch marked as a rename has both names real (its consumers unwrap them)", "function": "FilePatchMetadata::build_filepatch", "target": "lib",
+                     "run": lambda f, v, w: _mir.vc_rename_has_both_names(f, v, w)}],
         "instances": inst,
         "level": "model_checking",
         "functions": ["parse_number_usize", "parse_hunk_line_and_count", "parse_hunk_header", "parse_hunk_line", "parse_hunk", "parse_oct3", "parse_c_string",
@@ -108,3 +111,8 @@ def spec(tier, seed):
         "explanation": "every sub-parser is run on fully symbolic buffers: no panic, overflow, out-of-bounds or unwrap-on-None is reachable, it terminates within the unwinding bound, "
                        "and on success the remainder is a strict suffix of the input; numeric fields up to and beyond 2^64 either give the decimal value or an error",
     }
+
+
+def replay_candidate(v, work, log):
+    from .. import scenarios
+    return scenarios.replay_for("C11", v, work, log)
